@@ -84,8 +84,8 @@ func main() {
 		"bounded return is decided bimodally: the scripted descendants would hold the pipes for 120 s, the threshold is 30 s after the context ended; a 180 s watchdog firing without a decision is inconclusive",
 		"bounded buffering is decided from the host child's own VmHWM: growth < 1 GiB while the plugin emits 2 GiB (calibrated: about 130 MiB per stream with the 64 MiB cap, >= 2 GiB without)"}
 	scratch := lib.TempDir("c17")
-	defer os.RemoveAll(scratch)
-	defer killHolders(scratch)
+	r.OnExit(func() { os.RemoveAll(scratch) })
+	r.OnExit(func() { killHolders(scratch) })
 	workerSrc := filepath.Join(os.Getenv("VERIF_BIN"), "worker")
 	if _, err := os.Stat(workerSrc); err != nil {
 		r.Inconclusive("worker binary missing")
